@@ -37,11 +37,17 @@ Inductive sid := AT (n : nat) | RT (n : nat) | NoId | Junk.
    for strings the provider did not seal (bit flips, forgeries) id and sub are arbitrary.
    Jwt: does not decrypt, parses as a compact JWS; issuer / signature / expiry verdicts
    of the verifier are oracle bits.  Raw: neither; the string itself is what the storage sees. *)
+(* Ext: a THIRD-PARTY token - nothing the provider can verify itself.  Its issuer vouches for it
+   as subject token only, as actor token only, in both roles or in none (extcls, the ground truth
+   the driver knows); a storage that implements the optional TokenExchangeTokensVerifierStorage
+   is how the provider learns that verdict, per role. *)
+Inductive extcls := ESubj | EActor | EBoth | ENone.
 Inductive tokstr :=
 | Opq (id : sid) (sub : string)
 | OpqNoColon
 | Jwt (iss_ok sig_ok expired : bool) (jti : sid) (sub azp : string)
-| Raw (id : sid).
+| Raw (id : sid)
+| Ext (cls : extcls) (sub : string).
 
 (* operations, generic in how a token string is described *)
 Inductive gop (T : Type) :=
@@ -67,7 +73,8 @@ Inductive ptok :=
 | POpq (id : sid) (sub : string)
 | POpqNoColon
 | PJwt (iss : nat) (sig_ok expired : bool) (jti : sid) (sub azp : string)
-| PRaw (id : sid).
+| PRaw (id : sid)
+| PExt (cls : extcls) (sub : string).
 
 Definition localize (host : nat) (keys_up : bool) (t : ptok) : tokstr :=
   match t with
@@ -75,6 +82,7 @@ Definition localize (host : nat) (keys_up : bool) (t : ptok) : tokstr :=
   | POpqNoColon => OpqNoColon
   | PJwt iss sg e jti sub azp => Jwt (iss =? host) (sg && keys_up) e jti sub azp
   | PRaw id => Raw id
+  | PExt c sub => Ext c sub
   end.
 
 Definition map_op {A B : Type} (f : A -> B) (o : gop A) : gop B :=
@@ -96,8 +104,12 @@ Definition located (ops : list (nat * bool * gop ptok)) : list op :=
 Inductive status := S200 | S302 | S400 | S401 | S403 | S500 | SOther.
 Record trec := TRec { tr_client : string; tr_sub : string; tr_actor : string;
                       tr_scopes : list string; tr_aud : list string; tr_expired : bool }.
-Inductive xtok := XEmpty | XOpaque (id : sid) (sub : string) | XJwt (id : sid) (sub actor : string)   (* actor: the act.sub claim *)
-                | XIdTok (sub azp : string) | XOther.
+(* what the decoded JWT says about its own lifetime: is it expired right now (exp not in the
+   future), and is exp - iat the lifetime its client is registered with (up to the clock skew) *)
+Inductive tlife := TLife (expired aslife : bool).
+Inductive xtok := XEmpty | XOpaque (id : sid) (sub : string)
+                | XJwt (id : sid) (sub actor : string) (l : tlife)   (* actor: the act.sub claim *)
+                | XIdTok (sub azp : string) (l : tlife) | XOther.
 Inductive out :=
 | OIssued (at_id rt_id : sid)
 | OInfo (sub : string)
@@ -111,8 +123,10 @@ Inductive out :=
 (* The token-exchange policy of the storage (TokenExchangeStorage.ValidateTokenExchangeRequest may
    rewrite the request): does it turn an absent requested type into access_token, does it set a
    type of its own, does it replace the subject, does it empty the scopes.  refstore's own policy
-   is TEPolicy true None None false. *)
-Record tepolicy := TEPolicy { p_default : bool; p_force : option ttype; p_subject : option string; p_empty : bool }.
+   is TEPolicy true None None false false.  p_verifier: the storage also implements the OPTIONAL
+   TokenExchangeTokensVerifierStorage and answers for third-party tokens (Ext) per role. *)
+Record tepolicy := TEPolicy { p_default : bool; p_force : option ttype; p_subject : option string; p_empty : bool;
+                              p_verifier : bool }.
 Inductive hist_input := Hist (clients : list client) (pol : tepolicy) (ops : list (nat * bool * gop ptok)).
 
 (* ---------------------------------------------------------------- storage (refstore contract) *)
@@ -173,11 +187,15 @@ Definition add_at_rt (m n : nat) (t : trec) (s : store) :=
 
 Definition find_client (cl : list client) (id : string) : option client :=
   find (fun c => String.eqb (c_id c) id) cl.
-(* Storage.AuthorizeClientIDSecret *)
 Definition nonempty (s : string) : bool := negb (String.eqb s "").
+(* Storage.AuthorizeClientIDSecret: the storage compares the presented secret with the one it
+   holds, plainly - for a client registered without a secret (public, private_key_jwt) that may
+   be the empty string, and then an EMPTY presented secret passes the storage *)
+Definition store_accepts (cl : list client) (id sec : string) : bool :=
+  match find_client cl id with Some c => String.eqb (c_secret c) sec | None => false end.
 (* op.AuthorizeClientIDSecret / ClientBasicAuth: an empty secret never authenticates; else the storage decides *)
 Definition sec_ok (cl : list client) (id sec : string) : bool :=
-  nonempty sec && match find_client cl id with Some c => String.eqb (c_secret c) sec | None => false end.
+  nonempty sec && store_accepts cl id sec.
 Definition cred_pair (c : cred) : string * string :=
   match c with NoCred => ("", "") | Basic i s => (i, s) | Post i s => (i, s) | Both i s _ => (i, s)
              | Assertion _ f => (f, "") end.
@@ -191,12 +209,16 @@ Definition auth_intro_prov (cl : list client) (c : cred) : option string :=
   | Assertion who _ => who           (* ClientJWTAuth: the assertion's issuer *)
   | _ => None
   end.
-(* Legacy router, introspection: parseClientCredentials + authenticateResourceClient *)
+(* Legacy router, introspection: parseClientCredentials (Basic overrides the form; a client id is
+   needed), webServer.introspectionHandler's guard "client must be authenticated" (a request
+   without client_secret and without client_assertion is turned away, whether the empty secret
+   was left out, sent empty or sent in a Basic header), then
+   LegacyServer.authenticateResourceClient, which asks the STORAGE directly *)
 Definition auth_intro_leg (cl : list client) (c : cred) : option string :=
   match c with
   | Assertion who _ => who
   | _ => let (i, s) := cred_pair c in
-         if nonempty i && nonempty s && sec_ok cl i s then Some i else None
+         if nonempty i && nonempty s && store_accepts cl i s then Some i else None
   end.
 (* Provider router: ParseTokenRevocationRequest *)
 Definition auth_revoke_prov (cl : list client) (c : cred) : option string :=
@@ -266,13 +288,20 @@ Definition read_at (t : tokstr) : option (sid * string) :=
   | Opq id sub => Some (id, sub)
   | OpqNoColon => None
   | Jwt i sg e jti sub _ => if i && sg && negb e then Some (jti, sub) else None
-  | Raw _ => None
+  | Raw _ | Ext _ _ => None
   end.
 (* the string itself as a storage key *)
 Definition raw_id (t : tokstr) : sid := match t with Raw id => id | _ => Junk end.
 
-(* GetTokenIDAndSubjectFromToken (refstore has no TokenExchangeTokensVerifierStorage) *)
-Definition read_x (s : store) (typ : ttype) (t : tokstr) : option (sid * string) :=
+(* the third party's verdict for a role (actor = true: as actor token) *)
+Definition ext_accepts (c : extcls) (actor : bool) : bool :=
+  match c with ESubj => negb actor | EActor => actor | EBoth => true | ENone => false end.
+(* a declared token type the library supports *)
+Definition supported (typ : ttype) : bool :=
+  match typ with TAccess | TRefresh | TId | TJwt => true | _ => false end.
+
+(* the provider's own readers, per declared type *)
+Definition read_native (s : store) (typ : ttype) (t : tokstr) : option (sid * string) :=
   match typ with
   | TAccess => read_at t
   | TRefresh => match raw_id t with
@@ -287,6 +316,23 @@ Definition read_x (s : store) (typ : ttype) (t : tokstr) : option (sid * string)
            | _ => None
            end
   | _ => None
+  end.
+
+(* GetTokenIDAndSubjectFromToken for the token in ROLE actor: what the provider can read itself;
+   failing that, a storage implementing TokenExchangeTokensVerifierStorage is asked - with
+   VerifyExchangeSubjectToken for the subject token, VerifyExchangeActorToken for the actor
+   token.  The verifier storage of the fixture knows third-party tokens only; the id it returns
+   is the token string itself (no storage id: Junk). *)
+Definition read_x (s : store) (actor : bool) (typ : ttype) (t : tokstr) : option (sid * string) :=
+  match read_native s typ t with
+  | Some x => Some x
+  | None =>
+      if supported typ && p_verifier (policy s) then
+        match t with
+        | Ext c sub => if ext_accepts c actor then Some (Junk, sub) else None
+        | _ => None
+        end
+      else None
   end.
 
 (* refstore TE.ValidateTokenExchangeRequest: live(typ, idOrToken) *)
@@ -409,12 +455,12 @@ Definition exchange (cl : list client) (r : router) (s : st) (c : cred) (subj : 
   | Some k =>
       if negb (c_exchange k) then e400 else      (* unauthorized_client: not registered for the grant *)
       match req with TUnknown => e400 | _ =>
-      match read_x g styp subj with
+      match read_x g false styp subj with
       | None => e400
       | Some (sid_, ssub) =>
           match (match actor with
                  | None => Some (NoId, "", TAbsent)
-                 | Some (ta, atyp) => match read_x g atyp ta with
+                 | Some (ta, atyp) => match read_x g true atyp ta with
                                       | Some (aid, asub) => Some (aid, asub, atyp)
                                       | None => None
                                       end
@@ -429,14 +475,15 @@ Definition exchange (cl : list client) (r : router) (s : st) (c : cred) (subj : 
                 let sc := decided_scopes (policy g) scopes in
                 let ssub := decided_subject (policy g) ssub in
                 let t := TRec (c_id k) ssub asub sc aud (c_exp k) in
-                let acc n := if c_jwt k then XJwt (AT n) ssub asub else XOpaque (AT n) ssub in   (* CreateJWT: act from GetPrivateClaimsFromTokenExchangeRequest *)
+                let lf := TLife (c_exp k) true in     (* lifetimes are the client's: born expired iff registered so *)
+                let acc n := if c_jwt k then XJwt (AT n) ssub asub lf else XOpaque (AT n) ssub in   (* CreateJWT: act from GetPrivateClaimsFromTokenExchangeRequest *)
                 match effective_type (policy g) req with      (* CreateTokenExchangeResponse switches on what the storage left *)
                 | TAccess =>
                     ((add_at (nx + 1) t g, nx + 1), OExch TAccess (acc (nx + 1)) NoId false sc (Some t))
                 | TRefresh =>
                     ((add_at_rt (nx + 1) (nx + 2) t g, nx + 2), OExch TRefresh (acc (nx + 2)) (RT (nx + 1)) true sc (Some t))
                 | TId =>
-                    (s, OExch TId (XIdTok ssub (c_id k)) NoId false sc None)   (* CreateIDToken keeps the request subject *)
+                    (s, OExch TId (XIdTok ssub (c_id k) lf) NoId false sc None)   (* CreateIDToken keeps the request subject *)
                 | _ => e400          (* jwt, a custom type, or no type at all: invalid_request (F07 fixed) *)
                 end
           end
@@ -490,12 +537,14 @@ Definition strs_eqb := list_eqb String.eqb.
 Definition trec_eqb (a b : trec) : bool :=
   String.eqb (tr_client a) (tr_client b) && String.eqb (tr_sub a) (tr_sub b) && String.eqb (tr_actor a) (tr_actor b)
   && strs_eqb (tr_scopes a) (tr_scopes b) && strs_eqb (tr_aud a) (tr_aud b) && Bool.eqb (tr_expired a) (tr_expired b).
+Definition tlife_eqb (a b : tlife) : bool :=
+  match a, b with TLife e1 l1, TLife e2 l2 => Bool.eqb e1 e2 && Bool.eqb l1 l2 end.
 Definition xtok_eqb (a b : xtok) : bool :=
   match a, b with
   | XEmpty, XEmpty | XOther, XOther => true
   | XOpaque i s, XOpaque j u => sid_eqb i j && String.eqb s u
-  | XJwt i s a, XJwt j u b => sid_eqb i j && String.eqb s u && String.eqb a b
-  | XIdTok s z, XIdTok u w => String.eqb s u && String.eqb z w
+  | XJwt i s a l, XJwt j u b m => sid_eqb i j && String.eqb s u && String.eqb a b && tlife_eqb l m
+  | XIdTok s z l, XIdTok u w m => String.eqb s u && String.eqb z w && tlife_eqb l m
   | _, _ => false
   end.
 Definition out_eqb (a b : out) : bool :=
